@@ -1150,6 +1150,7 @@ func ext۰reflect۰Value۰MapIndex(fr *frame, args []value) value {
 	mt := r.t.Underlying().(*types.Map)
 	k := i.assignTo(rv(args[1]), mt.Key(), "reflect.Value.MapIndex")
 	m := r.v.(*gmap)
+	i.guardCheck(m, false, "reflect MapIndex")
 	if v, ok := m.lookup(i, k); ok {
 		return makeRV(mt.Elem(), v, nil, r.ro || rv(args[1]).ro)
 	}
